@@ -472,7 +472,7 @@ def keyFunB (l : List Placement) : Bool :=
 
 /-- **Order-sensitive terminal oracle** on the implementation's ordered command list of one frame (`Q=`): returns the
     terminal afterwards, the keys placed, and the first complaint about an `a=p` that found stale / no data. -/
-def runImplCmds (want : Nat → String) (t : KittyTerm.Term) (toks : List String) : KittyTerm.Term × List KittyTerm.Key × Option String :=
+def runImplCmds (want : Nat → String) (fitsCells : Nat → Nat → Option String) (t : KittyTerm.Term) (toks : List String) : KittyTerm.Term × List KittyTerm.Key × Option String :=
   toks.foldl (fun (acc : KittyTerm.Term × List KittyTerm.Key × Option String) tok =>
     let (t, keys, why) := acc
     if tok.startsWith "p" then
@@ -482,7 +482,10 @@ def runImplCmds (want : Nat → String) (t : KittyTerm.Term) (toks : List String
         let why := why.orElse fun _ =>
           if w ≠ "" ∧ t.data id ≠ some (dataCode w) then
             some s!"image {id} placed at {c},{r} while the terminal holds {match t.data id with | none => "no data" | some _ => "other (older, or not the resized picture's) data"} for it: its last Resize produced {w} px"
-          else none
+          else match t.data id with
+            -- (F520) the picture the terminal will show for this placement must not occupy more cells than the image's cell size
+            | some code => (fitsCells id code).map fun why => s!"image {id} placed at {c},{r}: {why}"
+            | none => none
         (t.apply (.place ⟨id, c, r, 0, 0⟩), (id, c, r) :: keys, why)
       | none => acc
     else if tok.startsWith "d" then
@@ -682,7 +685,8 @@ def kstep (s : St) (op : List String) (impl : String) : St × String :=
         -- holds the placement iff the image fits
         let width := childExtent c ww s.cols
         let height := childExtent r wh s.rows
-        let cur := if (k.iw : Int) ≤ width ∧ (k.ih : Int) ≤ height then s.cur ++ [⟨id, c, r, k.iw, k.ih⟩] else s.cur
+        -- (and, since the F520 repair, has cells at all)
+        let cur := if (k.iw : Int) ≤ width ∧ (k.ih : Int) ≤ height ∧ k.iw ≠ 0 ∧ k.ih ≠ 0 then s.cur ++ [⟨id, c, r, k.iw, k.ih⟩] else s.cur
         let s' := { s with ps := ps, cur := cur }
         -- drawn = the implementation's next-frame list grew by this op (an older entry with the same id and
         -- origin may still be there when the frame was not cleared)
@@ -732,7 +736,20 @@ def kstep (s : St) (op : List String) (impl : String) : St × String :=
       -- terminal oracle (round 4, independent of the model): the implementation's commands IN THE ORDER WRITTEN on the
       -- order-sensitive terminal tables
       let want (id : Nat) : String := ((s.imgs[id - 1]?).map (·.2.implPx)).getD ""
-      let (term, keys, stale) := runImplCmds want s.term ((getField impl "Q").getD [])
+      -- the picture held for an image (its pixel size is the data code) against the cell size the image reports
+      let gw := specCell s.xpix s.cols
+      let gh := specCell s.ypix s.rows
+      let fitsCells (id code : Nat) : Option String :=
+        if code = 0 then none else
+        let pw := (code - 1) / 1000003
+        let ph := (code - 1) % 1000003
+        match s.imgs[id - 1]? with
+        | some (_, k) =>
+          if ceilDiv pw gw > k.iw ∨ ceilDiv ph gh > k.ih then
+            some s!"the terminal's picture of it is {pw}x{ph} px = {ceilDiv pw gw}x{ceilDiv ph gh} cells, its cell size is {k.iw}x{k.ih}"
+          else none
+        | none => none
+      let (term, keys, stale) := runImplCmds want fitsCells s.term ((getField impl "Q").getD [])
       let kcur := s.cur.filter fun p => !isSixel p.id
       let tainted := s.tainted || !keyFunB kcur
       let seen := (keys ++ s.seenKeys).eraseDups
